@@ -233,3 +233,60 @@ def static_words_outside_table(F):
             elif x.get('k') == 'ctor' and norm(x.get('cls')) == W and not x.get('copy'):
                 out.append((f'temporary in {f["id"][:80]} (line {x.get("ln")})', f['loc']))
     return W, kw[0], sorted(set(out))
+
+
+WORD_PARAM_TYPES = ('std::basic_string_view<char8_t', 'ipr::util::word_view', 'const char8_t *')
+VIEW_MUTATORS = ('remove_suffix', 'remove_prefix', 'operator=', 'swap')
+
+
+def word_passed_whole(ck, F, prefix):
+    """<prefix>.word-passed-whole: every library function that takes a word (a view of code units) and reaches string_pool::intern hands
+    intern that very word -- not a prefix, a suffix, a trimmed or otherwise edited copy.  The node made for a word then spells exactly
+    the bytes the client gave (an embedded or trailing NUL, a blank), and two different words never share a node."""
+    R = ck.rule(f'{prefix}.word-passed-whole', 'every library function that takes a word and reaches the interning function hands it that very word on '
+                'every path: nothing is trimmed, cut or replaced on the way (the characters of the node are exactly the bytes given, a trailing NUL or '
+                'blank included)', floor=2)
+    intern = F.intern_fn()
+    iid = intern['id']
+    S = Sym(F, opaque=lambda x: x == iid or F.fn.get(x) is None or F.fn[x]['name'] in ('word_if_known', 'make_string'), max_depth=40)
+
+    def is_wordparam(p):
+        t = (p.get('t') or '').replace('const ', '', 1) if (p.get('t') or '').startswith('const std') else (p.get('t') or '')
+        return t.startswith(WORD_PARAM_TYPES) or (p.get('t') or '').startswith(WORD_PARAM_TYPES)
+    n = 0
+    for f in sorted(F.fn.values(), key=lambda f: f['id']):
+        if f.get('body') is None or not f['loc'].startswith(('src/', 'include/')) or f['id'] == iid or f.get('lambda_call'):
+            continue
+        wp = [i for i, p in enumerate(f['params']) if is_wordparam(p)]
+        if not wp or not (f.get('parent') or '').startswith('ipr::'):
+            continue
+        try:
+            outs = S.run(f['id'])
+        except Unsupported:
+            continue                # not a route this rule can follow; the factories are covered by the contract rules
+        bad, reached = [], False
+        for st, k, v in outs:
+            calls = [e for e in st.effects if e[0] == 'call' and e[1] == iid]
+            for e in calls:
+                reached = True
+                a = e[3][0] if e[3] else None
+                while isinstance(a, tuple) and a and a[0] == 'castto':
+                    a = a[2]
+                if not (isinstance(a, tuple) and a[:1] == ('param',) and a[1] in wp):
+                    # a view rebuilt from the whole of the parameter is the parameter
+                    whole = isinstance(a, tuple) and len(a) >= 4 and a[0] == 'call' and '::basic_string_view(' in a[1] and len(a[3]) == 2 and \
+                        all(isinstance(x, tuple) and len(x) >= 4 and x[0] == 'call' and x[2] == ('param', wp[0]) for x in a[3]) and \
+                        [contracts.fn_simple(x[1]) for x in a[3]] in (['data', 'size'], ['data', 'length'])
+                    if not whole:
+                        bad.append(f'interns `{contracts.render(a, st, {})[:70]}`')
+                        continue
+                    a = ('param', wp[0])
+                edits = [e2 for e2 in st.effects[:st.effects.index(e)] if e2[0] == 'call' and e2[2] == a and contracts.fn_simple(e2[1]) in VIEW_MUTATORS]
+                if edits:
+                    bad.append(f'applies {contracts.fn_simple(edits[0][1])} to the word before interning it')
+        if reached:
+            n += 1
+            ck.check(R, contracts.short(contracts.fn_qname(f['id'])) + '(' + ', '.join(contracts.short(p['t']) for p in f['params']) + ')', not bad,
+                     f'{f["id"]}: ' + '; '.join(sorted(set(bad))[:2]) + ' -- the node no longer spells the bytes the client gave', loc=f['loc'], fn=f['id'])
+    if n == 0:
+        raise AnalysisBroken('no function with a word parameter reaches the interning function')
